@@ -238,7 +238,45 @@ fn derive(src: &[u8], p: &Partner, which: usize, cap: usize) -> Vec<u8> {
     }
 }
 
+/// a block hash of exactly 64 run-free symbols against one that contains "end of it + start of it":
+/// a comparison that treated the 64-symbol string as circular would invent a common substring
+fn wrap_pair() -> impl Strategy<Value = Case> {
+    (gens::log_bs(), any::<u64>(), 1usize..7, gens::block_hash_min(64, 12), any::<u16>(), 0u8..3, gens::raw_hash(64), any::<bool>()).prop_map(
+        |(log, seed, j, fill, pos, spell, dirt, second)| {
+            let mut r = oracle::words::SplitMix(seed);
+            let mut full: Vec<u8> = Vec::with_capacity(64);
+            while full.len() < 64 {
+                let c = (r.next() % 64) as u8;
+                if full.last() != Some(&c) {
+                    full.push(c);
+                }
+            }
+            let mut gram: Vec<u8> = full[64 - j..].to_vec();
+            gram.extend_from_slice(&full[..7 - j]);
+            let mut other = fill;
+            let p = crate::engine::pick_index(pos, other.len() + 1);
+            for (k, c) in gram.iter().enumerate() {
+                if p + k < other.len() {
+                    other[p + k] = *c;
+                } else if other.len() < 64 {
+                    other.push(*c);
+                }
+            }
+            let (a, b) = if second {
+                (RawH { log, bh1: vec![1, 2, 3], bh2: full }, RawH { log, bh1: vec![4, 5, 6], bh2: other })
+            } else {
+                (RawH { log, bh1: full, bh2: vec![1, 2] }, RawH { log, bh1: other, bh2: vec![3] })
+            };
+            Case { a, b, spell_a: spell, spell_b: spell, dirt }
+        },
+    )
+}
+
 pub fn strategy() -> impl Strategy<Value = Case> {
+    prop_oneof![19 => strategy_main(), 1 => wrap_pair()]
+}
+
+fn strategy_main() -> impl Strategy<Value = Case> {
     (
         prop_oneof![4 => gens::raw_hash_long(64), 1 => gens::raw_hash(64)],
         prop::sample::select(vec![0i8, 0, 0, 0, 0, 0, 1, 1, 1, 1, -1, -1, -1, -1, 2, -7]),
